@@ -61,13 +61,23 @@ func runC17(c *Ctx) {
 		var pinger *ssa.Function
 		var pingWrite ssa.Instruction
 		for _, g := range p.Funcs {
+			if !c.spawnedAsGoroutine(g) {
+				continue
+			}
 			allInstrs(g, func(in ssa.Instruction) {
-				if ci, ok := in.(ssa.CallInstruction); ok && calleeName(ci) == "(*"+gorilla+".Conn).WriteMessage" {
-					if k, ok := constInt(ci.Common().Args[1]); ok && k == 9 {
-						pinger, pingWrite = g, in
-					}
+				if c.isPingWrite(in, map[*ssa.Function]bool{}) {
+					pinger, pingWrite = g, in
 				}
 			})
+		}
+		if pinger == nil {
+			for _, g := range p.Funcs {
+				allInstrs(g, func(in ssa.Instruction) {
+					if c.isPingWrite(in, map[*ssa.Function]bool{}) && pinger == nil {
+						pinger, pingWrite = g, in
+					}
+				})
+			}
 		}
 		construct := "ping sender"
 		if pinger == nil {
